@@ -305,6 +305,10 @@ func (cs *autoGrowingCallFrameStack) Sp() int {
 // SetSp can be used to rapidly unwind the stack, freeing all stack frames on the way. It should not be used to
 // allocate new stack space, use Push() for that.
 func (cs *autoGrowingCallFrameStack) SetSp(sp int) {
+	if sp >= cs.Sp() {
+		// nothing to unwind (a full current segment and the start of the next one denote the same depth)
+		return
+	}
 	desiredSegIdx := segIdx(sp / FramesPerSegment)
 	desiredFramesInLastSeg := uint8(sp % FramesPerSegment)
 	for {
